@@ -16,6 +16,19 @@ impl Clone for Diff { #[verifier::external_body] fn clone(&self) -> (r: Self) en
 //@type base/src/user_model/common.rs UserModel
 // the two fields of the deleted worksheet that the DeleteSheet undo arm reads first (D5)
 pub struct WorksheetShell { pub name: String, pub sheet_id: u32 }
+/// position of the sheet that was at index x after the sheet at `from` is removed and re-inserted at `to`
+pub open spec fn moved_index(x: int, from: int, to: int) -> int {
+    if x == from { to } else {
+        let a = if x > from { x - 1 } else { x };
+        if a >= to { a + 1 } else { a }
+    }
+}
+//@fn base/src/user_model/common.rs selected_sheet_after_move
+//@spec
+    requires selected < 4294967295
+    ensures r == moved_index(selected as int, from as int, to as int)
+//@rewrite `-> u32 {` => `-> (r: u32) {`
+//@end
 
 //@include diff_meaning.rs
 impl<'a> Model<'a> {
@@ -111,6 +124,14 @@ impl<'a> Model<'a> {
 //@end
 //@stub base/src/model.rs Model::delete_defined_name
     ensures r.is_ok() ==> final(self).log() == old(self).log().push(Call::DeleteDefinedName(name@, scope)),
+            r.is_err() ==> final(self).log() == old(self).log(),
+//@end
+//@stub base/src/model.rs Model::update_defined_name
+    ensures r.is_ok() ==> final(self).log() == old(self).log().push(Call::UpdateDefinedName(name@, scope, new_name@, new_scope, new_formula@)),
+            r.is_err() ==> final(self).log() == old(self).log(),
+//@end
+//@stub base/src/new_empty.rs Model::move_sheet
+    ensures r.is_ok() ==> final(self).log() == old(self).log().push(Call::MoveSheet(sheet_index, new_index)),
             r.is_err() ==> final(self).log() == old(self).log(),
 //@end
 //@stub base/src/new_empty.rs Model::delete_sheet
@@ -550,6 +571,26 @@ pub fn undo_arm_DeleteDefinedName(&mut self, name: &String, scope: &Option<u32>,
     ;
     Ok(needs_evaluation)
 }
+pub fn redo_arm_UpdateDefinedName(&mut self, name: &String, scope: &Option<u32>, old_formula: &String, new_name: &String, new_scope: &Option<u32>, new_formula: &String) -> (r: Result<bool, String>)
+    ensures r.is_ok() ==> final(self).model.log() == old(self).model.log() + redo_UpdateDefinedName(name, scope, old_formula, new_name, new_scope, new_formula),
+            final(self).history == old(self).history, final(self).send_queue == old(self).send_queue,
+{
+    #[allow(unused_assignments, unused_variables, unused_mut)] let mut needs_evaluation = false;
+//@arm base/src/user_model/undo_redo.rs UserModel::apply_diff_list `Diff::UpdateDefinedName {`
+//@end
+    ;
+    Ok(needs_evaluation)
+}
+pub fn undo_arm_UpdateDefinedName(&mut self, name: &String, scope: &Option<u32>, old_formula: &String, new_name: &String, new_scope: &Option<u32>, new_formula: &String) -> (r: Result<bool, String>)
+    ensures r.is_ok() ==> final(self).model.log() == old(self).model.log() + undo_UpdateDefinedName(name, scope, old_formula, new_name, new_scope, new_formula),
+            final(self).history == old(self).history, final(self).send_queue == old(self).send_queue,
+{
+    #[allow(unused_assignments, unused_variables, unused_mut)] let mut needs_evaluation = false;
+//@arm base/src/user_model/undo_redo.rs UserModel::apply_undo_diff_list `Diff::UpdateDefinedName {`
+//@end
+    ;
+    Ok(needs_evaluation)
+}
 // ---- sheet-structure undo arms (hand-written section, tools/arms_extra.rs) ----
     // set_selected_sheet lives in ui.rs; here it only records which sheet is selected (ASSUMED: Ok => recorded, Err => nothing)
     #[verifier::external_body]
@@ -576,6 +617,36 @@ pub fn undo_delete_sheet_head(&mut self, sheet: &u32, old_data: &Box<WorksheetSh
 {
 //@fragment base/src/user_model/undo_redo.rs UserModel::apply_undo_diff_list `let sheet_name = &old_data.name.clone();` .. `.insert_sheet(`
 //@end
+    Ok(())
+}
+
+    // the selected sheet as the user model reads it (ui.rs; stub: an uninterpreted function of the engine's call log)
+    pub uninterp spec fn selected(&self) -> u32;
+    #[verifier::external_body]
+    pub fn get_selected_sheet(&self) -> (r: u32) ensures r == self.selected() { unimplemented!() }
+
+/// redo / undo of MoveSheet: the sheet is moved (back), and the selection follows the SAME sheet through the move
+pub fn redo_move_sheet(&mut self, sheet_index: &u32, new_index: &u32) -> (r: Result<(), String>)
+    requires old(self).selected() < 4294967295
+    ensures r.is_ok() ==> final(self).model.log() == old(self).model.log()
+        + seq![Call::MoveSheet(*sheet_index, *new_index), Call::SelectSheet(moved_index(old(self).selected() as int, *sheet_index as int, *new_index as int) as u32)]
+{
+    let ghost sel0 = self.selected();
+//@arm base/src/user_model/undo_redo.rs UserModel::apply_diff_list `Diff::MoveSheet {`
+//@after `let selected = self.get_selected_sheet();`
+                    assert(selected == sel0);
+//@end
+    ;
+    Ok(())
+}
+pub fn undo_move_sheet(&mut self, sheet_index: &u32, new_index: &u32) -> (r: Result<(), String>)
+    requires old(self).selected() < 4294967295
+    ensures r.is_ok() ==> final(self).model.log() == old(self).model.log()
+        + seq![Call::MoveSheet(*new_index, *sheet_index), Call::SelectSheet(moved_index(old(self).selected() as int, *new_index as int, *sheet_index as int) as u32)]
+{
+//@arm base/src/user_model/undo_redo.rs UserModel::apply_undo_diff_list `Diff::MoveSheet {`
+//@end
+    ;
     Ok(())
 }
 
